@@ -22,7 +22,7 @@ BUDGET = {"quick": 192, "thorough": 4000}
 RULE = (
     "models from vlib.modelgen with units, descriptions, multi-component tuples and trailing comments, biased "
     "to constant subtrees (exp(1), cos(1), sqrt(2)), Not(..) around every kind of boolean, nested conditionals, "
-    "rational exponents x**(1/3), literals from 1e-300 to 1e300 and 17-digit decimals, relational-as-number and "
+    "nested And / Or of 3-4 comparisons, rational exponents x**(1/3), literals from 1e-300 to 1e300 and 17-digit decimals, relational-as-number and "
     "ContinuousConditional (thorough: + the repository's .ode models). Oracle (round trip): ode.save(p) and "
     "load_ode(p) succeed; same state / parameter names, defaults (1e-15 relative), unit strings, descriptions "
     "and component tuples of every atom; at every reference-defined point rhs, monitor_values, explicit_euler "
@@ -35,8 +35,16 @@ EXTREME = ["1e-300", "1e300", "1.7976931348623157e308", "2.2250738585072014e-308
 
 
 def bias_expr(c: G.Ctx, vars_, depth):
-    k = c.i(0, 7)
+    k = c.i(0, 9)
     v = ["var", c.pick(vars_)] if vars_ else ["num", "2"]
+    if k >= 8:
+        # nested binary And / Or of three or four comparisons (sympy flattens them; the saved text is n-ary)
+        op = c.pick(["and", "or"])
+        rels = [G.gen_rel(c, vars_, 1) for _ in range(c.i(3, 4))]
+        b = rels[0]
+        for r in rels[1:]:
+            b = [op, b, r] if c.i(0, 1) else [op, r, b]
+        return ["cond", b, G.gen_num_expr(c, vars_, 2), ["bin", "+", G.gen_num_expr(c, vars_, 2), ["num", "1000"]]]
     if k == 0:
         return ["bin", "*", ["call", c.pick(["exp", "cos", "sqrt", "sin", "atan"]), ["num", c.pick(["1", "2", "0.5"])]], v]
     if k == 1:
@@ -187,7 +195,7 @@ def check_case(case):
     labs = set()
     for a in model["assigns"]:
         tg = X.tags(a["expr"])
-        for t_, l in (("not", "not"), ("ccond", "ccond"), ("b2n", "rel-as-number"), ("cond", "cond")):
+        for t_, l in (("not", "not"), ("ccond", "ccond"), ("b2n", "rel-as-number"), ("cond", "cond"), ("and", "and/or"), ("or", "and/or")):
             if t_ in tg:
                 labs.add(l)
         for n in X.walk(a["expr"]):
